@@ -19,7 +19,7 @@ PROP = {
 }
 
 META = {
-    "text": "Lean theorems over the model of stage/fileList.go (as fixed): parse_total (parseFields/parseLine never panic, for every byte string; the unfixed tokenizer does, witness kept), quote_roundtrip (for every list of non-empty NUL-free fields, each rendered in double quotes, single quotes or with backslash escapes and joined by blanks, parseFields returns exactly the fields; the documented \\* exception as backslash_star_kept), type_table / type_option_table_partial / tbd_row_differs / unknown_option_refused (accept/refuse matrix of parseLine equals the manual's table on all type x option lines by decide, except the tbd row whose deviation is proved and recorded as a finding), mod_sound_octal (full) and mod_sound_grammar_partial (for every comma-separated list of clauses [ugoa]?[+-][rwxst]* the parser accepts the rendering and its and/or masks act on every 12-bit mode as Chmod.apply; the converse over arbitrary accepted strings is checked differentially, with two recorded findings), uid_range / uid_digits / dev_range, recipe witnesses. The model is tied to the Go code by differential runs; the implementation's observations are judged against independent Lean specifications of chmod(1) and of the manual. recipe_switch_overrides / recipe_without_switch / recipe_override_keeps_rest: for every recipe text the -root and -profile switches are the settings in force after the recipe step, without a switch the recipe's last line stands, and the override touches nothing else (fix ea50cf4).",
+    "text": "Lean theorems over the model of stage/fileList.go (as fixed): parse_total (parseFields/parseLine never panic, for every byte string; the unfixed tokenizer does, witness kept), quote_roundtrip (for every list of non-empty NUL-free fields, each rendered in double quotes, single quotes or with backslash escapes and joined by blanks, parseFields returns exactly the fields; the documented \\* exception as backslash_star_kept), type_table / type_option_table_partial / tbd_row_differs / unknown_option_refused (accept/refuse matrix of parseLine equals the manual's table on all type x option lines by decide, except the tbd row whose deviation is proved and recorded as a finding), mod_sound_octal (full) and mod_sound_grammar_partial (for every comma-separated list of clauses [ugoa]?[+-][rwxst]* the parser accepts the rendering and its and/or masks act on every 12-bit mode as Chmod.apply; the converse over arbitrary accepted strings is checked differentially, with two recorded findings), uid_range / uid_digits / dev_range, parseLine_name_clean / parseLine_accepted_name_clean (for every field list the name parseLine stores is empty — then an error was logged — or a clean absolute path other than /: path.Clean leaves it alone, so no //, no . or .. element, no trailing slash; every accepted line has such a name; fix e57e4a0; C06's parents_precede takes exactly this as its hypothesis on add steps), recipe witnesses. The model is tied to the Go code by differential runs; the implementation's observations are judged against independent Lean specifications of chmod(1) and of the manual. recipe_switch_overrides / recipe_without_switch / recipe_override_keeps_rest: for every recipe text the -root and -profile switches are the settings in force after the recipe step, without a switch the recipe's last line stands, and the override touches nothing else (fix ea50cf4).",
     "design_ref": "§4 C17",
     "note": "Trusted: Lean kernel; Lc/Spec/Chmod.lean and Lc/Spec/AddFiles.lean as transcriptions of chmod(1) and the manual; the correspondence harness. Findings (known_findings.txt): operator-less mod clauses accepted (asserted by the repo's own test), chmod forms =, X, multiple who/ops rejected, tbd accepts undocumented options, escaped asterisk keeps its backslash in non-wildcard names, recipe root/profile override the command line.",
     "technique": "Lean 4 proof (induction over byte strings, decide over the finite table) + differential correspondence model vs Go + spec oracles",
